@@ -1014,3 +1014,18 @@ package collection
 // "fresh" (= a miss in the statistics) is reported exactly by the caller whose own fetch ran and succeeded - not by a flight
 // leader whose double-check found a value stored by an execution that had already finished
 //@   ensures fresh == (old(fresh) || (!hit2 && ret(fetch, 1) == nil))
+
+// the wheel goroutine: one request at a time, each applied by the operation of its kind to a wheel that satisfies the
+// representation invariants, which every operation re-establishes - so the per-operation contracts above compose over any
+// sequence of ticks and requests. What is assumed of a received request is what SetTimer / MoveTimer / RemoveTimer assert of
+// the request they send (channel-content invariant).
+//@ func (tw *TimingWheel) run
+//@   property C12
+//@   flag private_channels callbacks_noheap
+//@   requires wheelOK(tw) && timersOK(tw) && liveOK(tw) && itemsOK(tw)
+//@   loop 0: invariant wheelOK(tw) && timersOK(tw) && liveOK(tw) && itemsOK(tw)
+//@   call arm tw.setChannel: assume task.delay > 0 && task.key != nil && task.circle == 0 && task.diff == 0 && !task.removed
+//@   call arm tw.moveChannel: assume task.delay > 0 && task.key != nil
+//@   call removeTask#0: assert arg_key == key
+//@   call moveTask#0: assert arg_task.key == task.key && arg_task.delay == task.delay
+//@   call drainAll#0: assert arg_fn == fn
